@@ -23,15 +23,28 @@ EXTENDS LoomSem
 CONSTANT Rec
 
 VARIABLES l,        \* next event to consume
-          phase     \* "run": inside an iteration, "ended": after its end event
-tvars == <<vars, l, phase>>
+          phase,    \* "run": inside an iteration, "ended": after its end event
+          lastT,    \* thread of the previous recorded instruction (0: none yet)
+          pre,      \* preemptions counted so far in this iteration, independently of loom (C15)
+          pb        \* preemption bound this iteration ran under (-1: none), from the reset event
+tvars == <<vars, l, phase, lastT, pre, pb>>
 
 Ev == Rec[l]
+
+PbOf(e) == IF "pb" \in DOMAIN e THEN e.pb ELSE -1
 
 TInit == /\ Rec[1].k = "reset"
          /\ InitFor(Rec[1].p)
          /\ l = 2 /\ phase = "run"
+         /\ lastT = 0 /\ pre = 0 /\ pb = PbOf(Rec[1])
          /\ TLCSet(1, 2)
+
+\* The switch from thread u to another thread is a preemption if u "could have continued": its next
+\* instruction is enabled in the spec state (not loom's notion of runnable) and is not a voluntary
+\* yield (yield_now, a spin-loop round, Notify::wait whose spurious return is a yield, Condvar::wait
+\* which blocks inside).  This op-level count can only be smaller than loom's branch-level count.
+Voluntary(u) == Code(u)[pc[u]].op \in {"yield", "await", "nwait", "cvwait"}
+Preempted(u, t) == u # 0 /\ u # t /\ CanStep(u) /\ ~Voluntary(u)
 
 \* a recorded instruction: the spec step of that thread must be enabled, must complete the
 \* instruction and must be able to return the recorded value
@@ -42,14 +55,17 @@ TOp == /\ l <= Len(Rec) /\ phase = "run" /\ Ev.k = "op"
        /\ end' = "run"
        /\ IF Ev.res = -1 THEN regs'[Ev.t] = regs[Ev.t]
           ELSE regs'[Ev.t] = Append(regs[Ev.t], Ev.res)
-       /\ l' = l + 1 /\ UNCHANGED phase
+       /\ pre' = IF Preempted(lastT, Ev.t) THEN pre + 1 ELSE pre
+       /\ (pb # -1 => pre' <= pb)                \* C15: never more than the bound (for some explanation of the trace)
+       /\ lastT' = Ev.t
+       /\ l' = l + 1 /\ UNCHANGED <<phase, pb>>
 
 \* unlogged inner step of a multi-step operation (Condvar::wait enqueue + unlock)
 TSilent == /\ l <= Len(Rec) /\ phase = "run"
            /\ \E t \in Threads : /\ Live(t) /\ sub[t] = ""
                                  /\ Code(t)[pc[t]].op = "cvwait"
                                  /\ Step(t) /\ sub'[t] = "cvq"
-           /\ UNCHANGED <<l, phase>>
+           /\ UNCHANGED <<l, phase, lastT, pre, pb>>
 
 \* the way loom ended the iteration must be what the spec state says
 TEnd == /\ l <= Len(Rec) /\ phase = "run" /\ Ev.k = "end"
@@ -60,11 +76,12 @@ TEnd == /\ l <= Len(Rec) /\ phase = "run" /\ Ev.k = "end"
              [] Ev.e \in {"race", "panic"}
                                   -> \E t \in Threads : Step(t) /\ end' = Ev.e
              [] OTHER             -> UNCHANGED vars       \* "cut": the iteration was not finished
-        /\ l' = l + 1 /\ phase' = "ended"
+        /\ l' = l + 1 /\ phase' = "ended" /\ UNCHANGED <<lastT, pre, pb>>
 
 TReset == /\ l <= Len(Rec) /\ phase = "ended" /\ Ev.k = "reset"
           /\ ResetTo(Ev.p)
           /\ l' = l + 1 /\ phase' = "run"
+          /\ lastT' = 0 /\ pre' = 0 /\ pb' = PbOf(Ev)
 
 TNext == TOp \/ TSilent \/ TEnd \/ TReset
 TSpec == TInit /\ [][TNext]_tvars
